@@ -102,6 +102,17 @@ def breakdown(js):
 
 
 def run_unit(template, rlimit=None, seed=None, do_twins=True):
+    """One retry with a larger resource limit when the solver gave up (neither a proof nor a located failure): a changed
+    body whose obligation is false often needs more than the default budget to be refuted."""
+    res = _run_unit_once(template, rlimit, seed, do_twins)
+    if rlimit is None and res.get('status') == 'undecided' and any(n.startswith('resource limit') for n in res.get('notes', [])):
+        res2 = _run_unit_once(template, 60, seed, do_twins)
+        res2.setdefault('notes', []).append('default resource limit exceeded; decided with --rlimit 60')
+        return res2
+    return res
+
+
+def _run_unit_once(template, rlimit=None, seed=None, do_twins=True):
     os.makedirs(GEN, exist_ok=True)
     unit = os.path.basename(template)[:-3]
     res = {'unit': unit, 'backend': 'verus/z3', 'status': 'ok', 'obligations': [], 'vacuity': {}, 'notes': [],
